@@ -5,6 +5,7 @@ import (
 
 	"github.com/bronlabs/bron-crypto/pkg/base/algebra"
 	"github.com/bronlabs/bron-crypto/pkg/base/serde"
+	"github.com/bronlabs/bron-crypto/pkg/base/utils"
 )
 
 type privateKeyDTO[V algebra.UintLike[V]] struct {
@@ -24,6 +25,9 @@ func (sk *PrivateKey[V]) UnmarshalCBOR(data []byte) error {
 	dto, err := serde.UnmarshalCBOR[privateKeyDTO[V]](data)
 	if err != nil {
 		return errs.Wrap(err).WithMessage("couldn't serialise private key")
+	}
+	if utils.IsNil(dto.V) {
+		return ErrInvalidKey.WithMessage("private key value is missing")
 	}
 	if _, err := NewPrivateKey(dto.V, dto.T); err != nil {
 		return errs.Wrap(err).WithMessage("invalid private key")
@@ -50,6 +54,9 @@ func (pk *PublicKey[V, S]) UnmarshalCBOR(data []byte) error {
 	dto, err := serde.UnmarshalCBOR[publicKeyDTO[V, S]](data)
 	if err != nil {
 		return errs.Wrap(err).WithMessage("couldn't serialise public key")
+	}
+	if utils.IsNil(dto.V) {
+		return ErrInvalidKey.WithMessage("public key value is missing")
 	}
 	if _, err := NewPublicKey(dto.V, dto.T); err != nil {
 		return errs.Wrap(err).WithMessage("invalid public key")
